@@ -3,7 +3,8 @@
 // use `unsafe` component access, so neither verifier can bring them under contract. A real server `App` with two connected
 // real client `App`s (the repository's own `test_app` transport) is driven through EVERY operation sequence up to
 // VERIF_DEPTH over one or two replicated entities:
-//   Spawn, Despawn, Hide, Show (client 0 only), Mutate (new payload), InsertExtra, RemoveExtra, Tick (server update +
+//   Spawn, Despawn, Hide, Show (client 0 only), Mutate (new payload), InsertExtra, RemoveExtra, StripSecret (the entity may
+//   end up with no replicated component at all), Tick (server update +
 //   delivery of everything + client update + delivery of the acks)
 // under both list policies, starting from an empty world or from an entity the client already holds. At every Tick:
 //   W  no message handed to the transport for a client contains a payload (recognisable 8-byte pattern carrying the entity
@@ -50,14 +51,14 @@ mod verif_search_s {
     }
 
     #[derive(Clone, Copy, Debug, PartialEq)]
-    enum Op { Spawn(u8), Despawn(u8), Hide(u8), Show(u8), Mutate(u8), InsertExtra(u8), RemoveExtra(u8), Tick }
+    enum Op { Spawn(u8), Despawn(u8), Hide(u8), Show(u8), Mutate(u8), InsertExtra(u8), RemoveExtra(u8), StripSecret(u8), Tick }
 
     #[derive(Clone, Copy, Debug, PartialEq)]
     enum Policy { Blacklist, Whitelist }
 
     /// The harness's own record of one entity slot.
     #[derive(Clone, Copy, Default)]
-    struct Slot { live: Option<Entity>, setting: Option<bool>, secret: u16, extra: Option<u16> }
+    struct Slot { live: Option<Entity>, setting: Option<bool>, secret: Option<u16>, extra: Option<u16> }
 
     fn new_app(policy: Policy) -> App {
         let mut app = App::new();
@@ -102,7 +103,7 @@ mod verif_search_s {
                     if self.slots[s].live.is_some() { return false; }
                     self.ver += 1;
                     let e = self.server.world_mut().spawn((Replicated, Secret(payload(s as u8, 0, self.ver)))).id();
-                    self.slots[s] = Slot { live: Some(e), setting: None, secret: self.ver, extra: None };
+                    self.slots[s] = Slot { live: Some(e), setting: None, secret: Some(self.ver), extra: None };
                 }
                 Op::Despawn(s) => {
                     let s = s as usize;
@@ -121,9 +122,10 @@ mod verif_search_s {
                 Op::Mutate(s) => {
                     let s = s as usize;
                     let Some(e) = self.slots[s].live else { return false; };
+                    if self.slots[s].secret.is_none() { return false; }
                     self.ver += 1;
                     self.server.world_mut().get_mut::<Secret>(e).unwrap().0 = payload(s as u8, 0, self.ver);
-                    self.slots[s].secret = self.ver;
+                    self.slots[s].secret = Some(self.ver);
                 }
                 Op::InsertExtra(s) => {
                     let s = s as usize;
@@ -139,6 +141,13 @@ mod verif_search_s {
                     if self.slots[s].extra.is_none() { return false; }
                     self.server.world_mut().entity_mut(e).remove::<Extra>();
                     self.slots[s].extra = None;
+                }
+                Op::StripSecret(s) => {
+                    let s = s as usize;
+                    let Some(e) = self.slots[s].live else { return false; };
+                    if self.slots[s].secret.is_none() { return false; }
+                    self.server.world_mut().entity_mut(e).remove::<Secret>();
+                    self.slots[s].secret = None;
                 }
                 Op::Tick => {}
             }
@@ -200,8 +209,8 @@ mod verif_search_s {
                     let Ok(er) = self.clients[c].world().get_entity(local) else {
                         return Some(format!("step {step}: client {c}: mapped entity of slot {s} does not exist"));
                     };
-                    let want_secret = Secret(payload(s as u8, 0, sl.secret));
-                    if er.get::<Secret>() != Some(&want_secret) {
+                    let want_secret = sl.secret.map(|v| Secret(payload(s as u8, 0, v)));
+                    if er.get::<Secret>().copied() != want_secret {
                         return Some(format!("step {step}: client {c} slot {s}: Secret = {:?}, server has {want_secret:?}", er.get::<Secret>()));
                     }
                     let want_extra = sl.extra.map(|v| Extra(payload(s as u8, 1, v)));
@@ -246,11 +255,14 @@ mod verif_search_s {
     fn applicable(held: bool, ops: &[Op]) -> bool {
         let mut live = [held, false];
         let mut extra = [false, false];
+        let mut secret = [held, false];
         for op in ops {
             match *op {
-                Op::Spawn(s) => { if live[s as usize] { return false; } live[s as usize] = true; extra[s as usize] = false; }
+                Op::Spawn(s) => { if live[s as usize] { return false; } live[s as usize] = true; extra[s as usize] = false; secret[s as usize] = true; }
                 Op::Despawn(s) => { if !live[s as usize] { return false; } live[s as usize] = false; }
-                Op::Hide(s) | Op::Show(s) | Op::Mutate(s) => { if !live[s as usize] { return false; } }
+                Op::Hide(s) | Op::Show(s) => { if !live[s as usize] { return false; } }
+                Op::Mutate(s) => { if !live[s as usize] || !secret[s as usize] { return false; } }
+                Op::StripSecret(s) => { if !live[s as usize] || !secret[s as usize] { return false; } secret[s as usize] = false; }
                 Op::InsertExtra(s) => { if !live[s as usize] || extra[s as usize] { return false; } extra[s as usize] = true; }
                 Op::RemoveExtra(s) => { if !live[s as usize] || !extra[s as usize] { return false; } extra[s as usize] = false; }
                 Op::Tick => {}
@@ -265,7 +277,7 @@ mod verif_search_s {
             let (name, slot) = t.split_once('-').map(|(n, s)| (n, s.parse::<u8>().unwrap_or(0))).unwrap_or((t, 0));
             match name {
                 "Spawn" => Op::Spawn(slot), "Despawn" => Op::Despawn(slot), "Hide" => Op::Hide(slot), "Show" => Op::Show(slot),
-                "Mutate" => Op::Mutate(slot), "InsertExtra" => Op::InsertExtra(slot), "RemoveExtra" => Op::RemoveExtra(slot), _ => Op::Tick,
+                "Mutate" => Op::Mutate(slot), "InsertExtra" => Op::InsertExtra(slot), "RemoveExtra" => Op::RemoveExtra(slot), "StripSecret" => Op::StripSecret(slot), _ => Op::Tick,
             }
         }).collect()
     }
@@ -289,7 +301,7 @@ mod verif_search_s {
         let mut jobs: Vec<(Policy, bool, Vec<Op>)> = Vec::new();
         for (slots, maxlen) in [(1u8, depth + 1), (2u8, depth)] {
             let mut ops: Vec<Op> = Vec::new();
-            for s in 0..slots { ops.extend([Op::Spawn(s), Op::Despawn(s), Op::Hide(s), Op::Show(s), Op::Mutate(s), Op::InsertExtra(s), Op::RemoveExtra(s)]); }
+            for s in 0..slots { ops.extend([Op::Spawn(s), Op::Despawn(s), Op::Hide(s), Op::Show(s), Op::Mutate(s), Op::InsertExtra(s), Op::RemoveExtra(s), Op::StripSecret(s)]); }
             ops.push(Op::Tick);
             for len in 1..=maxlen {
                 let mut idx = std::vec![0usize; len];
@@ -297,7 +309,7 @@ mod verif_search_s {
                     let seq: Vec<Op> = idx.iter().map(|&k| ops[k]).collect();
                     // a trailing Tick is the same as the closing ticks of the shorter sequence; the two-slot pass only
                     // runs sequences that use slot 1 (the others are in the one-slot pass)
-                    let uses_slot1 = seq.iter().any(|o| matches!(*o, Op::Spawn(1) | Op::Despawn(1) | Op::Hide(1) | Op::Show(1) | Op::Mutate(1) | Op::InsertExtra(1) | Op::RemoveExtra(1)));
+                    let uses_slot1 = seq.iter().any(|o| matches!(*o, Op::Spawn(1) | Op::Despawn(1) | Op::Hide(1) | Op::Show(1) | Op::Mutate(1) | Op::InsertExtra(1) | Op::RemoveExtra(1) | Op::StripSecret(1)));
                     let redundant = seq.last() == Some(&Op::Tick) || (slots == 2 && !uses_slot1);
                     if !redundant {
                         for policy in [Policy::Blacklist, Policy::Whitelist] {
